@@ -2,7 +2,8 @@ import asyncio
 import inspect
 import time
 
-from typing import Any, Callable
+from fractions import Fraction
+from typing import Any, Callable, Union
 
 from qtoggleserver import slaves
 from qtoggleserver.conf import settings
@@ -25,6 +26,23 @@ from qtoggleserver.slaves import devices as slaves_devices
 from qtoggleserver.slaves import ports as slaves_ports
 from qtoggleserver.utils import asyncio as asyncio_utils
 from qtoggleserver.utils import json as json_utils
+
+
+def _exact(number: Union[int, float]) -> Fraction:
+    # A float is taken as the (shortest) decimal it is written as: 0.1 means 1/10, not its binary approximation
+    if isinstance(number, float):
+        return Fraction(repr(number))
+
+    return Fraction(number)
+
+
+def _is_on_step_grid(value: Union[int, float], min_: Union[int, float], step: Union[int, float]) -> bool:
+    # Tells if value == min_ + k * step for some integer k, using exact arithmetic; binary floating point modulo would
+    # wrongly reject e.g. 0.3 with a step of 0.1
+    try:
+        return (_exact(value) - _exact(min_)) % _exact(step) == 0
+    except (ValueError, OverflowError):
+        return False  # NaN and infinity are never on the grid
 
 
 async def add_virtual_port(attrs: GenericJSONDict) -> core_ports.BasePort:
@@ -97,7 +115,7 @@ async def set_port_attrs(port: core_ports.BasePort, attrs: GenericJSONDict, igno
 
         step = attrdef.get('step')
         min_ = attrdef.get('min')
-        if None not in (step, min_) and step != 0 and (value - min_) % step:
+        if None not in (step, min_) and step != 0 and not _is_on_step_grid(value, min_, step):
             raise core_api.APIError(400, 'invalid-field', field=name)
 
     errors_by_name = {}
@@ -326,10 +344,11 @@ async def patch_port_value(request: core_api.APIRequest, port_id: str, params: P
 
     value = params
 
-    # Step validation
+    # Step validation; choices, when present, define the accepted values on their own (see get_value_schema())
     step = await port.get_attr('step')
     min_ = await port.get_attr('min')
-    if None not in (step, min_) and step != 0 and (value - min_) % step:
+    choices = await port.get_attr('choices')
+    if choices is None and None not in (step, min_) and step != 0 and not _is_on_step_grid(value, min_, step):
         raise core_api.APIError(400, 'invalid-value')
 
     if not port.is_enabled():
@@ -379,6 +398,7 @@ async def patch_port_sequence(request: core_api.APIRequest, port_id: str, params
     value_schema = await port.get_value_schema()
     step = await port.get_attr('step')
     min_ = await port.get_attr('min')
+    choices = await port.get_attr('choices')
     for value in values:
         # Translate any APIError generated when validating value schema into an invalid-field APIError on value
         try:
@@ -386,8 +406,8 @@ async def patch_port_sequence(request: core_api.APIRequest, port_id: str, params
         except core_api.APIError:
             raise core_api.APIError(400, 'invalid-field', field='values') from None
 
-        # Step validation
-        if None not in (step, min_) and step != 0 and (value - min_) % step:
+        # Step validation; choices, when present, define the accepted values on their own
+        if choices is None and None not in (step, min_) and step != 0 and not _is_on_step_grid(value, min_, step):
             raise core_api.APIError(400, 'invalid-field', field='values')
 
     if not port.is_enabled():
